@@ -18,7 +18,7 @@ RULE_TEXT = ("merge_generators over 1-4 sources and debounced_sorted_prefix over
              "distinct = abstract trace shape.")
 COMPONENTS = {"real": ["llama_agents.core.iter_utils (merge_generators, debounced_sorted_prefix, Debouncer)"], "stub": [], "sim": ["loop, clock (time.monotonic patched before import)"]}
 ASSUMPTIONS = ["arrival order = order in which the inner generator produced the items", "keys are unique, so 'sorted' is unambiguous"]
-EXPECTED_PROBES = ["merge-tie", "merge-error", "debounce-boundary-arrival", "debounce-late-items", "max-window-flush"]
+EXPECTED_PROBES = ["none-item", "equal-sort-keys", "merge-tie", "merge-error", "debounce-boundary-arrival", "debounce-late-items", "max-window-flush"]
 LEVEL_TEXT = "Seeded exploration of arrival timings around the window boundaries and of task-set iteration order; outputs compared with the sequence semantics in the statement."
 LEVEL_NOTE = "Trusted: simulator loop/clock."
 
@@ -43,7 +43,9 @@ def _run_merge(tape):
     for s in range(n):
         k = tape.rng_int(0, 5, "nitems")
         err_at = tape.rng_int(0, k, "err.at") if tape.chance(15, 100, "err?") else None
-        srcs.append({"items": [(s, i) for i in range(k)], "gaps": [tape.choice(gaps, "gap") for _ in range(k + 1)], "err_at": err_at})
+        # a source may yield None as an ordinary item (any object is a legal item)
+        none_at = tape.rng_int(0, k - 1, "none.at") if k and tape.chance(20, 100, "none?") else None
+        srcs.append({"items": [(s, i) for i in range(k)], "gaps": [tape.choice(gaps, "gap") for _ in range(k + 1)], "err_at": err_at, "none_at": none_at})
 
     async def scenario(world):
         from llama_agents.core.iter_utils import merge_generators
@@ -60,7 +62,12 @@ def _run_merge(tape):
                     raise SrcError(f"src{s}@{i}")
                 world.trace.log("produce", src=s, i=i)
                 produced_at[item] = world.clock.t
-                yield item
+                if spec["none_at"] == i:
+                    world.probe("none-item")
+                    nones.append(item)
+                    yield None
+                else:
+                    yield item
             g = spec["gaps"][len(spec["items"])]
             if g:
                 await asyncio.sleep(g)
@@ -70,17 +77,23 @@ def _run_merge(tape):
                 raise SrcError(f"src{s}@end")
         out = []
         err = None
+        nones: list = []
+        n_none = [0]
         try:
             async for it in merge_generators(*[gen(s, sp) for s, sp in enumerate(srcs)]):
+                if it is None:
+                    n_none[0] += 1
+                    world.trace.log("yield", src=None, i=None)
+                    continue
                 out.append(it)
                 world.trace.log("yield", src=it[0], i=it[1])
         except SrcError as e:
             err = e
             world.trace.log("merge-raised", msg=str(e))
-        return out, err, produced_at
+        return out, err, produced_at, nones, n_none[0]
 
     def check(world, res):
-        out, err, produced_at = res
+        out, err, produced_at, nones, n_none = res
         any_err = any(sp["err_at"] is not None for sp in srcs)
         if any_err:
             world.probe("merge-error")
@@ -92,9 +105,10 @@ def _run_merge(tape):
         if len(set(out)) != len(out):
             world.violate("C29.merge-multiset", f"item yielded twice: {out}", how="duplicate")
         if not any_err:
-            want = sorted(it for sp in srcs for it in sp["items"])
-            if sorted(out) != want:
-                world.violate("C29.merge-multiset", f"yielded {sorted(out)} != inputs {want}", how="missing" if len(out) < len(want) else "extra")
+            want = sorted(it for sp in srcs for it in sp["items"] if it not in nones)
+            if sorted(out) != want or n_none != len(nones):
+                world.violate("C29.merge-multiset", f"yielded {sorted(out)} + {n_none} x None != inputs {want} + {len(nones)} x None",
+                              how="missing" if len(out) + n_none < len(want) + len(nones) else "extra")
         else:
             # items produced strictly before the failing instant must not be dropped? (statement: re-raises an input's error) - only order/dup checked
             pass
@@ -125,6 +139,9 @@ def _run_debounce(tape):
     # ... optionally preceded by a synchronous stall of the source (event loop blocked across a deadline)
     plan = [(order[i], tape.choice(gaps, "gap"), tape.choice([0, 0, 1, 2, 3], "hops"),
              tape.choice([0, 0, 0, T, 8 * T, 32 * T], "stall")) for i in range(n)]
+    # items are records sorted by a key function; in the tie arm several records share a sort key (records themselves are not orderable)
+    ties = tape.chance(30, 100, "key-ties?")
+    sort_key = (lambda ident: ident // 2) if ties else (lambda ident: ident)
     tail = tape.choice([0, T, deb, mx], "tail")
 
     async def scenario(world):
@@ -142,24 +159,36 @@ def _run_debounce(tape):
                     await asyncio.sleep(0)
                 arrivals.append(key)
                 world.trace.log("produce", key=key)
-                yield key
+                yield {"id": key, "k": sort_key(key)}
             if tail:
                 await asyncio.sleep(tail)
         out = []
         t0 = world.clock.t
-        async for it in debounced_sorted_prefix(inner(), key=lambda x: x, debounce_seconds=deb, max_window_seconds=mx):
-            out.append(it)
-            world.trace.log("yield", key=it)
+        try:
+            async for it in debounced_sorted_prefix(inner(), key=lambda x: x["k"], debounce_seconds=deb, max_window_seconds=mx):
+                out.append(it["id"])
+                world.trace.log("yield", key=it["id"])
+        except Exception as e:  # noqa: BLE001
+            world.violate("C29.debounce-error", f"debounced_sorted_prefix raised {type(e).__name__}: {e} (arrivals {arrivals}, sort keys {[sort_key(a) for a in arrivals]})", exc=type(e).__name__)
+        if ties:
+            world.probe("equal-sort-keys")
         return out, arrivals
 
     def check(world, res):
         out, arrivals = res
         world._nt = False
+        if any(v["rule"] == "C29.debounce-error" for v in world.violations):
+            return
         if sorted(out) != sorted(arrivals) or len(out) != len(set(out)):
             world.violate("C29.debounce-multiset", f"output {out} is not a permutation of the inputs {arrivals}",
                           how="missing" if len(out) < len(arrivals) else "duplicate-or-extra")
             return
-        ok = any(out == sorted(arrivals[:k]) + arrivals[k:] for k in range(len(arrivals) + 1))
+
+        def burst_ok(k):
+            # the first k arrivals come out sorted by key (any order among equal keys), the rest in arrival order
+            head = out[:k]
+            return sorted(head) == sorted(arrivals[:k]) and [sort_key(x) for x in head] == sorted(sort_key(x) for x in head) and out[k:] == arrivals[k:]
+        ok = any(burst_ok(k) for k in range(len(arrivals) + 1))
         if not ok:
             # which kind: did an item that arrived later get out before items of the sorted burst?
             first_unsorted = next((i for i in range(len(out)) if out[:i + 1] != sorted(arrivals[:i + 1]) and out[i] not in arrivals[:i + 1]), None)
